@@ -18,7 +18,8 @@ from vlib import core, build, pairlib as pl
 
 REL, ABS = 2e-5, 1e-9
 KINDS = [("general", "general"), ("on", "general"), ("general", "on"), ("on", "on"), ("axis", "plane"), ("plane", "axis"), ("axis", "axis"),
-         ("near", "general"), ("general", "near"), ("near", "on"), ("zaxis", "zaxis"), ("on", "zaxis")]
+         ("near", "general"), ("general", "near"), ("near", "on"), ("zaxis", "zaxis"), ("on", "zaxis"),
+         ("nearz", "general"), ("nearz", "nearz"), ("plane", "nearaxis"), ("nearz", "on")]
 # counterfactuals tried in this order; the first that brings the block within tolerance names the finding(s)
 ATTRIBUTION = [
     ("tailcut-left-end", "no-tail-cut"),
@@ -63,6 +64,17 @@ def gen_cases(rng, quick, maxl):
         A = pl.rand_shell(rng, LA, pl.place(rng, C, "general", 0.05, 4.0), lo=0.03, hi=20.0)
         B = pl.rand_shell(rng, LB, pl.place(rng, C, rng.choice(["general", "plane"]), 0.05, 4.0), lo=0.03, hi=20.0)
         cases.append(dict(maxLB=maxl, maxLU=maxl, ecp=U, A=A, B=B, kind=["wide", "wide"]))
+    # mirror images about the ECP with a common exponent (X-M-X): the Gaussian product centre of that primitive pair is exactly the
+    # ECP centre although neither shell is on it (dyadic coordinates, so that A - C = -(B - C) bit for bit)
+    for _ in range(4 if quick else 24):
+        LA, LB = rng.randint(0, min(3, maxl)), rng.randint(0, min(3, maxl))
+        C = [round(rng.uniform(-1.5, 1.5) * 8) / 8 for _ in range(3)]
+        d = [round(x * 1024) / 1024 for x in pl.place(rng, [0.0, 0.0, 0.0], rng.choice(["general", "axis", "zaxis"]))]
+        U = pl.rand_ecp(rng, rng.randint(1, min(3, maxl)), C)
+        A = pl.rand_shell(rng, LA, [C[i] + d[i] for i in range(3)])
+        B = pl.rand_shell(rng, LB, [C[i] - d[i] for i in range(3)])
+        B["prims"][0][0] = A["prims"][0][0]
+        cases.append(dict(maxLB=maxl, maxLU=maxl, ecp=U, A=A, B=B, kind=["mirror", "mirror"]))
     cases.sort(key=lambda c: (c["maxLB"], c["maxLU"]))
     return cases
 
